@@ -201,6 +201,33 @@ def fresh_state(interp, ctx, shape, prefix='s.', src=None):
                 b.opt(nm + '.hand_type_index', lambda x: b.int(x, 0, T - 1)))
     f['_sub_pots'] = A('list', b.seq('_sub_pots', shape.subpots_cap, subpot))
     f['chips_pulling_statuses'] = A('list', b.seq('chips_pulling_statuses', n, b.bool, fixed=True))
+    # fields of the real dataclass that this builder does not know (a changed tree may add private fields, e.g. a cache): they are
+    # taken at their declared defaults -- an assumption recorded in interp.notes; the structural scans (no query writes the state)
+    # are what speaks about such fields
+    import dataclasses
+    for fld in dataclasses.fields(st.State):
+        if fld.name in f:
+            continue
+        if fld.default is not dataclasses.MISSING:
+            f[fld.name] = interp.from_native(fld.default)
+        elif fld.default_factory is not dataclasses.MISSING:
+            try:
+                v = fld.default_factory()
+            except Exception:   # noqa
+                continue
+            if isinstance(v, dict) and not v:
+                f[fld.name] = A('dict', {})
+            elif isinstance(v, (list, tuple)) and not v:
+                f[fld.name] = A('list', ())
+            elif isinstance(v, set) and not v:
+                f[fld.name] = A('set', ())
+            else:
+                continue
+        else:
+            continue
+        if not hasattr(interp, 'unknown_fields'):
+            interp.unknown_fields = []
+        interp.unknown_fields.append(fld.name)
     ref = A('obj', SymObj(st.State, f))
     return ref, And_(*b.wf)
 
